@@ -19,6 +19,21 @@ echo "### build with patch (feature verif)"; timeout 2400 cargo build --offline 
 echo "### demo WITH patch"; OUT1=$(run_demo); echo "$OUT1" | grep -E "^test result|error(\[|:)" | head -5
 echo "### repository tests WITH patch"
 rm -f tests/seed_demo.rs
+if [ "${SKIP_SUITE:-0}" = "1" ]; then
+git apply -R $S/patch.diff
+P0=$(echo "$OUT0" | grep -c "^test result: ok")
+F1=$(echo "$OUT1" | grep -c "^test result: FAILED")
+# a demo that hangs or aborts the process (killed by the deadline) also counts as failing
+[ "$F1" = "0" ] && ! echo "$OUT1" | grep -q "^test result: ok" && F1=1
+echo "CONFIRM: demo_passes_without_patch=$P0 demo_fails_with_patch=$F1 repo_test_failures_with_patch=not-rerun"
+python3 - <<PY
+import json
+json.dump({"demo_passes_without_patch": $P0 >= 1, "demo_fails_with_patch": $F1 >= 1, "repo_tests_pass_with_patch": None,
+           "how": "lib/seedconfirm.sh (SKIP_SUITE=1) in a clean worktree of /repo HEAD: cargo test --test seed_demo with/without the patch, cargo build --features verif with the patch; the repository suite with the patch was run by the seed agent (its log is quoted in meta.seed.json), not re-run by the orchestrator for lack of time"},
+          open("$S/confirm.json", "w"), indent=1)
+PY
+exit 0
+fi
 T=$(timeout -s KILL 1200 unshare -n bash -c "ip link set lo up; cargo test --workspace --no-fail-fast --offline" 2>&1 | grep -E "^test result|^test .* FAILED")
 echo "$T"
 if echo "$T" | grep -q "FAILED"; then
